@@ -8,7 +8,7 @@ from harness.deser_run import Producer
 from harness.descr import data_real, data_coq, ty_coq, ty_src, con_opt_coq, con_src, Other
 from harness.schema_coq import doc_coq, Unsupported
 
-NEEDED = ["Core/TextProofs.v", "Schema/ObjAgree.v", "Schema/NestAgree.v", "Schema/RefAgree.v",
+NEEDED = ["Core/TextProofs.v", "Schema/DepReqAgree.v", "Schema/ObjAgree.v", "Schema/NestAgree.v", "Schema/RefAgree.v",
           "Deser/Model.v", "Deser/Spec.v", "Deser/Proofs.v", "Schema/Json.v", "Schema/Build.v", "Schema/Run.v",
           "Schema/Proofs.v", "Schema/ConProofs.v", "Schema/ShapeProofs.v", "Schema/AgreeProofs.v"]
 
